@@ -213,7 +213,7 @@ def de_hook(S, fn, bb, t, args, path):
                         and f.file.endswith("value/de.rs"):
                     return ("inline", f)
     if c.get("trait") == "serde::de::Visitor":
-        path.events.append(("visit", c.get("method")))
+        path.events.append(("visit", c.get("method"), d))
         return ("skip", Adt("std::result::Result", 0, [UNK]))
     if p == "value::de::invalid_value":
         path.events.append(("invalid_value",))
